@@ -208,7 +208,7 @@ class SchemaValidationContext:
     ) -> None:
         default_input = input_value.default
 
-        if not default_input:
+        if not default_input or not is_input_type(input_value.type):
             return
 
         errors: list[tuple[GraphQLError, list[str | int]]] = []
